@@ -249,8 +249,11 @@ def check_search(c2, c3, repo, ctor, f, kind):
     # the range searched for each pattern must not depend on what earlier patterns matched
     scall = cv if kind == 'string' else (mdefs[0].value if mdefs else None)
     if isinstance(scall, ast.Call):
-        maxargs = 2
-        c2.check(len(scall.args) <= maxargs and not scall.keywords, f, scall,
+        ek = end_bound_kind(f, scall, buf)
+        if ek == 'unknown':
+            raise AnalysisError('%s: the search is given an end position that is neither the end of the buffer nor the end of an earlier match (%s): '
+                                'whether every occurrence can still be found cannot be decided' % (f.qual, norm(scall)))
+        c2.check(ek in ('none', 'whole'), f, scall,
                  'each pattern is searched up to the END of the buffer (no end position: an occurrence of a later-listed pattern that starts earlier '
                  'but ends later than the current best must still be found)', witness=norm(scall), kind='ast', tag='no-end-bound')
         used = set(x.id for a in scall.args for x in ast.walk(a) if isinstance(x, ast.Name))
